@@ -42,7 +42,7 @@ type fataler interface {
 
 // ---------------------------------------------------------------- generators
 
-var resourceBits = []string{"r", "orchard", "a'b", `q"uote`, "x&y", "<tag>", "a b", "é", "日本", "]]>", "&amp;", "'", "\"", "%", "=", "/slash"}
+var resourceBits = []string{"r", "orchard", "home ", " work", "a'b", `q"uote`, "x&y", "<tag>", "a b", "é", "日本", "]]>", "&amp;", "'", "\"", "%", "=", "/slash"}
 
 func genJID(t *rapid.T, label string, wantResource int) jid.JID {
 	local := rapid.SampledFrom([]string{"", "romeo", "juliet", "a.b", "o'n"[:1], "x+y", "é"}).Draw(t, label+"-local")
@@ -626,7 +626,18 @@ func TestC12Restart(t *testing.T) {
 			if initiator.Resourcepart() != "" && rapid.Bool().Draw(rt, "dropres") {
 				alt = initiator.Bare()
 			} else {
-				alt, _ = initiator.WithResource(initiator.Resourcepart() + "2")
+				// another resourcepart: one that differs in a further character, or
+				// in nothing but a space at its end or beginning
+				suffix := rapid.SampledFrom([]string{"2", "2", " ", "\t"}).Draw(rt, "ressuffix")
+				var err error
+				if suffix == " " && rapid.Bool().Draw(rt, "spacefirst") {
+					alt, err = initiator.WithResource(" " + initiator.Resourcepart() + "x")
+				} else {
+					alt, err = initiator.WithResource(initiator.Resourcepart() + suffix)
+				}
+				if err != nil || alt.Equal(initiator) {
+					alt, _ = initiator.WithResource(initiator.Resourcepart() + "2")
+				}
 			}
 			if recv {
 				from2 = alt.String()
